@@ -50,8 +50,8 @@ impl Check for C19 {
             real: &["h3_webtransport::server::WebTransportSession (accept, session_id, open_bi, open_uni, accept_bi, accept_uni)", "h3_webtransport::stream types", "h3::webtransport::SessionId", "h3 server connection, AcceptRecvStream (uni header resolution), FrameStream (0x41 signal), stream header encoding"],
             stub: &["QUIC transport incl. datagram and unframed-send extension traits (SimQuic)", "executor (simexec)", "reference client (script, reference codecs)", "application tasks"],
             assumptions: &["the reference client opens WebTransport bidi streams only after it has seen the 2xx response (a bidi stream that overtakes the CONNECT request is refused by h3's ordinary accept path, which is outside this property)", "stream ids above 2^20 are used with arrival-order accept only"],
-            quick_runs: 60_000,
-            thorough_runs: 3_000_000,
+            quick_runs: 600_000,
+            thorough_runs: 24_000_000,
         }
     }
     fn run(&self, ctx: &RunCtx) -> RunOut {
